@@ -891,7 +891,10 @@ Apply1(st, e) ==
          \* a new Stakker on the same thread, after the previous one was dropped and every handle
          \* released: Stakker::new released what was stranded; nothing of it is pending any more
          LET fresh == Init0(st.props)
-         IN R([fresh EXCEPT !.alive = "live", !.items = st.items, !.tokdrop = st.tokdrop,
+             \* what the first life left pending (e.g. calls held by an actor that never left Prep and is
+             \* kept alive by a reference cycle) is not the new Stakker's to run or release
+             olditems == [i \in DOMAIN st.items |-> IF st.items[i].s = "p" THEN [st.items[i] EXCEPT !.q = "void"] ELSE st.items[i]]
+         IN R([fresh EXCEPT !.alive = "live", !.items = olditems, !.tokdrop = st.tokdrop,
                             !.actors = [a \in DOMAIN st.actors |-> [st.actors[a] EXCEPT !.held = << >>]],
                             !.rets = st.rets, !.fwds = st.fwds, !.oldgen = DOMAIN st.actors],
               \* (whether what was deferred after the drop has been released by now depends on the Deferrer
